@@ -110,6 +110,13 @@ FAMILIES = {
         "vh_cfg": {"ledger": True},
         "tiers": {"quick": {"rand": 48, "rlen": 150, "chunks": 8}, "thorough": {"rand": 1200, "rlen": 200, "chunks": 14}},
     },
+    "src": {   # source scan: no wall-clock / process-global randomness in module code (assumption behind C06's double execution)
+        "fix_all": ["sizes"], "trace_fix": None, "needs_repo": True,
+        "mc": {"module": "MCChain", "cfg": {"quick": ["Chain-mc-quick.cfg"], "thorough": ["Chain-mc-quick.cfg"]}, "timeout": {"quick": 300, "thorough": 900}},
+        "trace_module": "SrcTrace", "trace_cfg": "Src-trace.cfg",
+        "vh_cfg": {},
+        "tiers": {"quick": {"rand": 1, "rlen": 5000, "chunks": 1}, "thorough": {"rand": 1, "rlen": 5000, "chunks": 1}},
+    },
     "auth": {
         "fix_all": None,
         "mc": {"module": "Auth", "cfg": {"quick": "Auth-mc.cfg", "thorough": ["Auth-mc.cfg"]}, "timeout": {"quick": 120, "thorough": 300}},
@@ -138,6 +145,9 @@ SD_ASSUME = COMMON_ASSUME + [
     "file sizes >= 1 and replication >= 1 in this family (boundary values belong to C05/C07)",
 ]
 
+# files of up to 40 chunks of one byte (challenge indexes with two digits, beyond 16): used by C01 and C02
+_SD_MANYCHUNKS = {"vh_cfg": {"honest": "p1", "I": 3, "C": 4, "cs": 1, "fs": 2, "min": 2, "maxchunks": 40},
+                  "sim_subst": {"PI": "3", "PC": "4", "PCS": "1", "PFS": "2", "PMIN": "2"}}
 PROPS = {
     "C08": {
         "family": "rns", "formulas": ["C08Step"], "nt": "C08",
@@ -164,7 +174,8 @@ PROPS = {
         "family": "sd", "formulas": ["C01_Listed", "C01_NoEffect", "C01_Paid", "C14_Quorum"], "nt": "C01",   # C14_Quorum: the "completed attestation quorum" clause of C01
         # a fifth parameter variant with dense attestation / report traffic (repeated and foreign signatures) for that clause
         "extra_variants": [{"vh_cfg": {"honest": "p1", "I": 3, "C": 4, "cs": 2, "fs": 2, "min": 2, "mode": "forms"},
-                            "sim_subst": {"PI": "3", "PC": "4", "PCS": "2", "PFS": "2", "PMIN": "2"}}],
+                            "sim_subst": {"PI": "3", "PC": "4", "PCS": "2", "PFS": "2", "PMIN": "2"}},
+                           _SD_MANYCHUNKS],
         "mc_cfg": {"quick": ["SD-mc-rewards-quick.cfg"], "thorough": ["SD-mc-rewards-quick.cfg", "SD-mc-rewards-thorough.cfg"]},
         "bug_variants": [("addprover", ["C01_Listed", "PC01a", "PC01b"], "SD-mc-rewards-quick.cfg")],
         "rule": "non-trivial = a post-proof step whose payload is NOT a valid proof of the stored challenge (junk, other file, bit flip, "
@@ -174,6 +185,7 @@ PROPS = {
     },
     "C02": {
         "family": "sd", "formulas": ["C02_ChallengeInRange", "C02_HonestAccepted", "C02_HonestKept"], "nt": "C02",
+        "extra_variants": [_SD_MANYCHUNKS],
         "mc_cfg": {"quick": ["SD-mc-rewards-quick.cfg"], "thorough": ["SD-mc-rewards-quick.cfg", "SD-mc-rewards-thorough.cfg"]},
         "bug_variants": [],
         "rule": "non-trivial = a reward block on a file past its first window that still lists a prover which has had a valid proof "
@@ -333,7 +345,7 @@ LEDGER = {
     "C04": (["LG_StorKeeps", "LG_FailFree", "LG_Conserve"], "LG_C04", []),
     "C09": (["LG_RnsBacked", "LG_Conserve"], "LG_C09", [("refund", ["LG_RnsBacked"], "Ledger-mc-quick.cfg"), ("passfee", ["LG_RnsBacked"], "Ledger-mc-quick.cfg")]),
     "C12": (["LG_GaugeHold"], "LG_C12", []),
-    "C13": (["LG_Supply", "LG_MintOut"], "LG_C13", [("fullmint", ["PStep"], "Ledger-mc-quick.cfg")]),
+    "C13": (["LG_Supply", "LG_MintOut", "LG_MintSplit"], "LG_C13", [("fullmint", ["PStep"], "Ledger-mc-quick.cfg")]),
     "C15": (["LG_CollBacked"], "LG_C15", []),
     "C16": (["LG_FailFree"], "LG_C16", []),
 }
@@ -341,6 +353,10 @@ LEDGER = {
 PROPS["C07"]["families"] = [PROPS["C07"].pop("family"), "ledger"]
 PROPS["C07"]["formulas"] = PROPS["C07"]["formulas"] + ["LG_Plans"]
 PROPS["C07"].setdefault("per_family", {})["ledger"] = {"nt": "LG_C07", "mc_cfg": {"quick": ["Ledger-mc-quick.cfg"], "thorough": ["Ledger-mc-quick.cfg"]}, "bug_variants": []}
+# C06: the source scan as second family (single execution, not a pair)
+PROPS["C06"]["families"] = [PROPS["C06"].pop("family"), "src"]
+PROPS["C06"]["formulas"] = PROPS["C06"]["formulas"] + ["C06_TimeSource"]
+PROPS["C06"].setdefault("per_family", {})["src"] = {"nt": "C06src", "pair": False, "bug_variants": []}
 # C11 (resource clause at whole-application level): auth records of accounts change only by their own signed transactions
 PROPS["C11"]["families"] = PROPS["C11"]["families"] + ["ledger"]
 PROPS["C11"]["formulas"] = PROPS["C11"]["formulas"] + ["LG_Auth"]
